@@ -1544,15 +1544,22 @@ func oracle(c Case) vkit.Outcome {
 			a, b := cliTest(c.Src, base, true), cliTest(f1, base, true)
 			// a test that depends on time, network or scheduling may differ
 			// between two runs of the same file: only a difference that shows
-			// again, in the same way, in three further pairs of runs counts
-			for i := 0; a != b && i < 3; i++ {
-				a2, b2 := cliTest(c.Src, base, false), cliTest(f1, base, false)
+			// again, in the same way, in two further pairs of runs counts
+			unstable := false
+			for i := 0; a != b && i < 2 && !unstable; i++ {
+				var a2, b2 string
+				var wg sync.WaitGroup
+				wg.Add(2)
+				go func() { defer wg.Done(); a2 = cliTest(c.Src, base, false) }()
+				go func() { defer wg.Done(); b2 = cliTest(f1, base, false) }()
+				wg.Wait()
 				if a2 == b2 || a2 != a || b2 != b {
-					a, b = "", ""
-					out.Labels = append(out.Labels, "corpus: unstable test result")
+					unstable = true
 				}
 			}
 			switch {
+			case unstable:
+				out.Inconclusive = "corpus-test: results of `ego test` vary between runs of the same file"
 			case a == "TIMEOUT" || b == "TIMEOUT" || strings.HasPrefix(a, "CLI-ERROR") || strings.HasPrefix(b, "CLI-ERROR"):
 				out.Inconclusive = "corpus-test: cli run did not finish"
 			case a != b:
